@@ -389,7 +389,13 @@ def minimise(case, still_fails, budget=30):
 # ------------------------------------------------------------------------------------------------
 
 def unformatted_text(k, variant):
-    v = variant % 11
+    v = variant % 14
+    if v == 11:  # nothing but white space: differs from its formatted text (empty)
+        return "\n\n  \n"
+    if v == 12:
+        return "\r\n\r\n"
+    if v == 13:
+        return " \t "
     if v == 0:
         return clilib.lua_unformatted(k)
     if v == 1:  # several separated hunks
@@ -439,7 +445,7 @@ def formatted_text(lf, cfg_, k, variant):
         return ""
     if v == 12:
         return f"-- only a comment {k}\n"
-    r = lf.format(unformatted_text(k, v), cfg_)
+    r = lf.format(unformatted_text(k, v % 11), cfg_)
     if r[0] == "ok" and lf.format(r[1], cfg_)[1] == r[1]:
         return r[1]
     return f"local v{k} = {k}\n"
